@@ -452,7 +452,13 @@ func TraceDefault(prop, tier, name string, n int) {
 		opts := sc.Opts
 		opts.Trace = true
 		opts.MaxSteps = n
-		o := verifrt.Replay(&verifrt.Scenario{Name: sc.Name, Body: sc.Body}, nil, opts)
+		var prefix []int
+		for _, f := range strings.Fields(strings.ReplaceAll(os.Getenv("VERIF_PREFIX"), ",", " ")) {
+			var v int
+			fmt.Sscan(f, &v)
+			prefix = append(prefix, v)
+		}
+		o := verifrt.Replay(&verifrt.Scenario{Name: sc.Name, Body: sc.Body}, prefix, opts)
 		for _, l := range o.Trace {
 			fmt.Println(l)
 		}
